@@ -131,55 +131,59 @@ async def run_idle(spec: dict[str, Any], hist: History,
                 return
             await s.fetch_all()
         klass = {'before_arm': 0, 'during_write': 0, 'parked': 0}
-        for rnd in range(spec['rounds'] if spec.get('early_done') else 0):
-            # DONE arrives at an arbitrary moment, in particular while the
-            # idler is in the middle of writing a notification, and the next
-            # command follows at once: whatever was pushed during IDLE and
-            # whatever follows must form one consistent stream
-            async def early_idler(s: Session) -> None:
-                for _ in range(s.rng.randint(1, 3)):
-                    tag = await s.idle_begin()
-                    if tag is None or not s.alive:
-                        return
-                    s.idling = True           # type: ignore[attr-defined]
-                    await s.conn.yields(s.rng.choice([0, 3, 10, 30, 80]) +
-                                        s.rng.randint(0, 10))
-                    s.idling = False          # type: ignore[attr-defined]
-                    k = 'early_done_during_write' if s.conn.draining \
-                        else 'early_done_parked'
-                    counters[k] = counters.get(k, 0) + 1
-                    r = await s.idle_end(tag)
-                    if r.closed:
-                        return
-                    if r.cond != b'OK':
-                        hist.report('idle-done-wrong-result',
-                                    'sent DONE, got %r' % (r.cond,))
-                    if s.rng.random() < 0.7:
-                        await s.fetch_all()
-                    else:
-                        await s.noop()
+        for rnd in range(spec['rounds']):
+            burst = spec['burst']
+            if spec.get('early_done'):
+                # DONE arrives at an arbitrary moment, in particular while
+                # the idler is in the middle of writing a notification, and
+                # the next command follows at once: whatever was pushed
+                # during IDLE and whatever follows must form one consistent
+                # stream
+                async def early_idler(s: Session) -> None:
+                    for _ in range(s.rng.randint(1, 3)):
+                        tag = await s.idle_begin()
+                        if tag is None or not s.alive:
+                            return
+                        s.idling = True       # type: ignore[attr-defined]
+                        await s.conn.yields(
+                            s.rng.choice([0, 3, 10, 30, 80]) +
+                            s.rng.randint(0, 10))
+                        s.idling = False      # type: ignore[attr-defined]
+                        k = 'early_done_during_write' if s.conn.draining \
+                            else 'early_done_parked'
+                        counters[k] = counters.get(k, 0) + 1
+                        r = await s.idle_end(tag)
+                        if r.closed:
+                            return
+                        if r.cond != b'OK':
+                            hist.report('idle-done-wrong-result',
+                                        'sent DONE, got %r' % (r.cond,))
+                        if s.rng.random() < 0.7:
+                            await s.fetch_all()
+                        else:
+                            await s.noop()
 
-            async def early_writer(s: Session) -> None:
-                await writer_burst(s, spec['burst'], klass, idlers)
+                async def early_writer(s: Session) -> None:
+                    await writer_burst(s, spec['burst'], klass, idlers)
 
-            await asyncio.gather(*(early_idler(s) for s in idlers),
-                                 *(early_writer(s) for s in writers))
-            await settle(env, loop)
-            for s in idlers:
-                if s.alive:
-                    await s.noop()
-                    await s.fetch_all()
-            truth = await probe_dump(env, hist, b'INBOX')
-            if truth is None:
-                hist.aborted = 'probe-failed'
-                return
-            for s in idlers:
-                if s.alive:
-                    compare(hist, s, truth, counters,
-                            'round %d, after early DONE and NOOP' % rnd)
-            if hist.violations:
-                break
-        for rnd in range(0 if spec.get('early_done') else spec['rounds']):
+                await asyncio.gather(*(early_idler(s) for s in idlers),
+                                     *(early_writer(s) for s in writers))
+                await settle(env, loop)
+                # the idler's last command before the IDLE that is judged
+                # below: a non-UID FETCH may not report expunges, which are
+                # then due when IDLE starts; half of the time nothing else
+                # happens during that IDLE
+                for s in idlers:
+                    if s.alive:
+                        how = s.rng.choice(['noop', 'fetch', 'fetch', 'none'])
+                        if how == 'noop':
+                            await s.noop()
+                        if how != 'none':
+                            await s.fetch_all()
+                            counters['idle_after_fetch'] = \
+                                counters.get('idle_after_fetch', 0) + 1
+                if rng.random() < 0.5:
+                    burst = 0
             tags: dict[int, bytes | None] = {}
 
             async def idler_task(s: Session) -> None:
@@ -188,7 +192,7 @@ async def run_idle(spec: dict[str, Any], hist: History,
                 s.idling = True           # type: ignore[attr-defined]
 
             async def writer_task(s: Session) -> None:
-                await writer_burst(s, spec['burst'], klass, idlers)
+                await writer_burst(s, burst, klass, idlers)
 
             await asyncio.gather(*(idler_task(s) for s in idlers),
                                  *(writer_task(s) for s in writers))
@@ -288,8 +292,38 @@ async def script_lazy_diff(hist: History, counters: dict[str, int]) -> None:
         env.cleanup()
 
 
+async def script_hidden_expunge(hist: History,
+                                counters: dict[str, int]) -> None:
+    """Another session expunges; the idler-to-be issues a non-UID FETCH
+    (which may not report the expunge) and then IDLE: the expunge is due
+    during that IDLE although nothing else happens."""
+    env = await make_env('dict')
+    loop = asyncio.get_event_loop()
+    try:
+        if not await provision(env, hist, 3, random.Random(1)):
+            return
+        idler = Session(env, hist, 1, Sched(), 1)
+        writer = Session(env, hist, 2, Sched(), 2)
+        for s in (idler, writer):
+            await s.start()
+            await s.select(b'INBOX')
+            await s.fetch_all()
+        await writer.store(b'2', False, b'+FLAGS', True, [b'\\Deleted'])
+        await writer.cmd(b'EXPUNGE')
+        await idler.fetch_all()
+        tag = await idler.idle_begin()
+        await settle(env, loop)
+        truth = await probe_dump(env, hist, b'INBOX')
+        if truth is not None and tag:
+            compare(hist, idler, truth, counters, 'hidden expunge')
+            await idler.idle_end(tag)
+    finally:
+        env.cleanup()
+
+
 SCRIPTS = {'change-before-arm': script_change_before_arm,
-           'lazy-diff': script_lazy_diff}
+           'lazy-diff': script_lazy_diff,
+           'hidden-expunge': script_hidden_expunge}
 
 
 class C16(Check):
@@ -312,7 +346,8 @@ class C16(Check):
         'idler; they are compared by position and count']
     floors = {'idle_comparisons': 300, 'burst_parked': 100,
               'burst_before_arm': 20, 'burst_during_write': 20,
-              'early_done_during_write': 20, 'early_done_parked': 50}
+              'early_done_during_write': 20, 'early_done_parked': 50,
+              'idle_after_fetch': 100}
 
     def cases(self, tier: str, seed: int) -> Iterable[dict[str, Any]]:
         n = 1500 if tier == 'quick' else 40000
